@@ -13,12 +13,16 @@ Replaced(s) == {[s EXCEPT ![i] = b] : i \in 1..Len(s), b \in Bytes}
 Inserted(s) == {SubSeq(s, 1, i) \o <<b>> \o SubSeq(s, i + 1, Len(s)) : i \in 0..Len(s), b \in Bytes}
 Corruptions(s) == (Deleted(s) \cup Replaced(s) \cup Inserted(s)) \ {s}
 
-VARIABLES cseed, cbytes
-cvars == <<cseed, cbytes>>
-CInit == cseed \in Seeds \cup Routing /\ cbytes = <<>>
+\* ckind remembers which set the seed came from ("s" corrupted, "r" emitted as is): a membership test in the
+\* large Routing set on every step would re-evaluate its definition each time
+VARIABLES cseed, ckind, cbytes
+cvars == <<cseed, ckind, cbytes>>
+CInit == /\ \/ cseed \in Seeds /\ ckind = "s"
+            \/ cseed \in Routing /\ ckind = "r"
+         /\ cbytes = <<>>
 CNext == /\ cbytes = <<>>
-         /\ cbytes' \in (IF cseed \in Routing THEN {S2C(cseed[2])} ELSE Corruptions(S2C(cseed[2])) \cup {S2C(cseed[2])})
-         /\ cseed' = cseed
+         /\ cbytes' \in (IF ckind = "r" THEN {S2C(cseed[2])} ELSE Corruptions(S2C(cseed[2])) \cup {S2C(cseed[2])})
+         /\ UNCHANGED <<cseed, ckind>>
 Vec == LET p == VParse(cbytes) IN
        [bytes |-> cbytes, probe |-> cseed[3], syntaxOk |-> p.syntaxOk, scheme |-> p.scheme, supported |-> p.supported,
         loneStar |-> p.loneStar, cons |-> p.cons, eco |-> IF p.supported THEN SchemeEco[p.scheme] ELSE ""]
